@@ -367,6 +367,12 @@ def run_step(step, heap):
         return tuple(sr.linalg.eigh(x))
     if op == "solve":
         return sr.linalg.solve(x, vals[1])
+    if op == "expm":
+        # (dense kernel: core.expm_stub, registered for the numpy backend)
+        if st == "do":
+            return ar.do("linalg.expm", x)
+        from symmray.scipy.linalg import expm as _sr_expm
+        return _sr_expm(x)
     # ---- gauge-invariant observables of decompositions: reconstruction by
     # the library's own contraction + spectra (factors are not unique)
     if op == "qr_recon":
@@ -1569,6 +1575,18 @@ def g_eigh(ctx, heap):
     return steps
 
 
+def g_expm(ctx, heap):
+    """Block-wise matrix exponential (symmray.scipy.linalg.expm) of a matrix
+    with square blocks, optionally carrying pending signs."""
+    steps = []
+    n = _matrix(ctx, heap, steps, square=True)
+    kind = steps[0]["a"]["spec"]["kind"] if steps[0]["op"] == "new" else "F"
+    n = _lazy_signs(ctx, n, kind, steps)
+    steps.append({"op": "expm", "in": [n], "out": [ctx.fresh()],
+                  "a": {"style": ctx.style("do", "direct")}})
+    return steps
+
+
 def _recon(gen, newop, nout):
     def g(ctx, heap):
         steps = gen(ctx, heap)
@@ -1706,6 +1724,7 @@ GENERATORS = {
     "svd_truncated": (g_svd_truncated, 2),
     "eigh": (g_eigh, 1),
     "solve": (g_solve, 1),
+    "expm": (g_expm, 1),
     "phase": (g_phase, 5),
     "qr_recon": (_recon(g_qr, "qr_recon", 1), 0),
     "svd_recon": (_recon(g_svd, "svd_recon", 2), 0),
